@@ -161,7 +161,7 @@ PROPS = {
                      "ArgMapper.C16.valueSetArgs_buildFor"],
         "modules": ["ArgMapper.Props.C16"],
         "rule": "opts: at least one option.",
-        "runs": {"quick": [fam("opts", 2000, 8), fam("redef", 300, 0), fam("call", 300, 0, "general")], "thorough": [fam("opts", 100000, 10), fam("opts", 50000, 5), fam("redef", 20000, 0), fam("call", 20000, 0, "general")]},
+        "runs": {"quick": [fam("opts", 2000, 8), fam("redef", 300, 0), fam("call", 300, 0, "general"), fam("call", 300, 0, "malformed"), fam("call", 300, 0, "hopeless")], "thorough": [fam("opts", 100000, 10), fam("opts", 50000, 5), fam("redef", 20000, 0), fam("call", 20000, 0, "general"), fam("call", 20000, 0, "malformed"), fam("call", 20000, 0, "hopeless")]},
     },
     "C17": {
         "claim": "Theorems about Result.Len/Out/Err for any list of returned values with or without a final error, and for resolution failures. Tied to the code by differential runs over result arities 0-5 with error / concrete-error / value results in every position.",
@@ -215,8 +215,8 @@ PROPS = {
         "claim": "Theorems for the subtype-free fragment, every oracle: complete_single (single-input converters, cycles allowed: once callGraph finds every parameter reachable the call ends in success or in a function body's own error) stable (the outcome class does not depend on the oracle) and complete_acyclic (clause (b): any number of inputs per converter, the pruned graph acyclic and every surviving converter with all its requirements in the graph). With the full label language (names, subtypes, interfaces) and every legal oracle: complete_single_legal (single-input converters, arbitrary cycles — true of the repaired walk only: counterexample_single_legal is the pre-repair model refusing a satisfiable call, finding F22) and complete_acyclic_legal. Chaining is complete and the outcome stable on well-behaved converter sets. Tied to the code by trace conformance on acyclic-satisfiable and single-input-cyclic families, 8 repetitions per scenario; completeness is judged against the matching table, with the table-but-not-library matches (gaps G1-G5) listed as known findings.",
         "note": "", "theorems": ["ArgMapper.C05.complete_single", "ArgMapper.C05.stable", "ArgMapper.C05.newFunc_setsWF", "ArgMapper.C05.counterexample_duplicate_named_key", "ArgMapper.C05.counterexample_values_without_struct", "ArgMapper.C05.complete_acyclic", "ArgMapper.C05.complete_single_legal", "ArgMapper.C05.complete_acyclic_legal", "ArgMapper.C05.complete_single_legal_partial_no_r6", "ArgMapper.C05.counterexample_single_legal", "ArgMapper.C05.counterexample_single_legal_repaired", "ArgMapper.C05.complete_single_any_oracle", "ArgMapper.C05.stable_any_oracle", "ArgMapper.C13.ruleFlow_iff_lib", "ArgMapper.C13.gaps_classified"], "facts": {"r5SkipSame": "true", "r6NameTest": "true", "publishAfterUpdate": "true", "trackReaching": "true", "takeValuedNamed": "true", "hopCopies": "true", "memoCopy": "true"},
         "rule": "call: at least one function executed, or an unsatisfied error with a converter present.",
-        "runs": {"quick": [fam("call", 300, 0, "single"), fam("call", 300, 0, "acyclic"), fam("call", 150, 0, "gens"), fam("dij", 300, 7), fam("dij", 100, 5, "huge")],
-                 "thorough": [fam("call", 30000, 0, "single"), fam("call", 30000, 0, "acyclic"), fam("call", 10000, 0, "gens"), fam("dij", 20000, 9), fam("dij", 3000, 6, "huge")]},
+        "runs": {"quick": [fam("call", 300, 0, "single"), fam("call", 300, 0, "acyclic"), fam("call", 150, 0, "gens"), fam("hist", 400, 0), fam("sig", 600, 5), fam("dij", 300, 7), fam("dij", 100, 5, "huge")],
+                 "thorough": [fam("call", 30000, 0, "single"), fam("call", 30000, 0, "acyclic"), fam("call", 10000, 0, "gens"), fam("hist", 30000, 0), fam("sig", 30000, 5), fam("dij", 20000, 9), fam("dij", 3000, 6, "huge")]},
     },
     "C07": {
         "claim": "Theorems (any legal complete pop order, negative weights allowed): feeder_pred / branch_pred / branch_pred_long (Dijkstra level), affinity_path / named_converter_path / named_converter_path' (the path chosen on the re-weighted reversed copy enters the converter's type-only input from the same-named supplied value; reaches the parameter through the name-using converter), walk_converts_feeder / walk_runs_named_converter (walking such a path executes the converter once, on the same-named value). Name affinity decides between equal candidates. The theorems' premises famA / famB / famB' are decidable and evaluated on the real pruned graph of every scenario (distribution key prem=). Tied to the code by trace conformance on the two documented families (1-6 competing same-typed inputs; type-only vs name-using converter; all forms; shuffled registration order; 10 repetitions).",
@@ -226,7 +226,7 @@ PROPS = {
                      "ArgMapper.C07.walk_converts_feeder", "ArgMapper.C07.walk_runs_named_converter"],
         "facts": {"r5SkipSame": "true", "r6NameTest": "true", "publishAfterUpdate": "true", "trackReaching": "true", "takeValuedNamed": "true", "hopCopies": "true", "memoCopy": "true"},
         "rule": "call: the converter executed.",
-        "runs": {"quick": [fam("call", 250, 0, "affinity")], "thorough": [fam("call", 20000, 0, "affinity")]},
+        "runs": {"quick": [fam("call", 250, 0, "affinity"), fam("redef", 300, 0)], "thorough": [fam("call", 20000, 0, "affinity"), fam("redef", 20000, 0)]},
     },
     "C13": {
         "claim": "Theorems: hopeless_reported (uses the verified DFS model, the edge characterisation and flow_compat), unsat_are_parameters, exact_not_listed, inputs_are_supplied, unsat_before_execution. The unsatisfied-argument error lists the hopeless parameter, only underivable parameters, exactly the supplied values, every supplied converter, and its message mentions each missing argument. Tied to the code by comparing the structured error fields (errors.As) of the real code with the model on scenarios with a hopeless parameter. The message: message_mentions_missing / _input / _converter about the model of Error() (Model/ErrMsg.lean), tied to the real text by counting, for every entry the model lists, the lines of the real message that end with it.",
